@@ -460,7 +460,10 @@ def _setvolume(spec, ctx, summary):
 
 def _regular(vals, tol):
     """are the sorted distinct values equally spaced?"""
-    u = np.unique(np.round(vals / tol) * tol)
+    v = np.sort(np.asarray(vals, dtype=float))
+    # cluster values that agree up to rounding (a fixed rounding grid can split one level in two)
+    groups = np.split(v, np.where(np.diff(v) > 20 * tol)[0] + 1)
+    u = np.array([g.mean() for g in groups])
     if len(u) < 3:
         return True
     d = np.diff(u)
